@@ -339,9 +339,14 @@ def ob_banded_fill_affine(tier):
                     except MemorySafety:
                         return False
                     if rt.WRAPS[0] and overflow_known():
-                        # a path on which an int32 sum wrapped around: this IS the recorded finding
-                        # C09-banded-affine-overflow (recognised structurally); all other paths are checked
-                        return True
+                        # a path on which an int32 sum wrapped around: this is the recorded finding
+                        # C09-banded-affine-overflow exactly when opening + extension together exceed what the sentinel
+                        # was corrected by (one penalty and the lowest score); a wrap for any other input is reported
+                        mn_ = M[0][0]
+                        for row in M:
+                            for e in row:
+                                mn_ = z3.If(e < mn_, e, mn_)
+                        return go + ge < z3.If(go < ge, go, ge) + z3.If(mn_ < 0, mn_, 0)
                     mx = M[0][0]
                     for row in M:
                         for e in row:
